@@ -235,7 +235,8 @@ def blockLine (v : Variant) (line : Str) : Option BlockLine :=
 
 /-! ## commands -/
 
-inductive Extra | none | optional (b : Bool) | append (b : Bool)
+/-- `implicit` = `{"optional": True, "silent": True}`, the extra of the action appended for the default product -/
+inductive Extra | none | optional (b : Bool) | append (b : Bool) | implicit
   deriving DecidableEq, Repr
 
 structure Action where
@@ -534,6 +535,35 @@ def actions (v : Variant) (env : Env) : List Chain → Res (List Action)
 /-- `Table(file, topProduct).actions(flavor, setupType)` for a file with contents `text` -/
 def tableActions (v : Variant) (pdir : Option Str) (env : Env) (text : Str) : Res (List Action) :=
   (parse v pdir text).bind fun chains => actions v env chains
+
+/-! ## the default product
+
+`_read` ends by appending `('True', [Action("implicit", "setupRequired", args, {"optional": True, "silent": True})], [])`
+for `hooks.config.Eups.defaultProduct` (usually `toolchain`) unless `addDefaultProduct is False` or no name is
+configured; `args` = the name, the version if one is configured, `--tag` and the tag if one is. -/
+
+structure DefaultProduct where
+  name : Str
+  version : Option Str
+  tag : Option Str
+  deriving DecidableEq, Repr
+
+def sDashDashTag : Str := Str.ofString "--tag"
+
+def implicitAction (d : DefaultProduct) : Action :=
+  ⟨Cmd.setupRequired.name,
+   dropF ([d.name] ++ d.version.toList ++ (match d.tag with | some t => [sDashDashTag, t] | none => [])), .implicit⟩
+
+/-- `Table._read` with the default product (`none`: switched off) -/
+def parseD (v : Variant) (pdir : Option Str) (dflt : Option DefaultProduct) (text : Str) : Res (List Chain) :=
+  (parse v pdir text).bind fun chains =>
+    .ok (match dflt with
+      | some d => chains ++ [unconditional [implicitAction d]]
+      | none => chains)
+
+def tableActionsD (v : Variant) (pdir : Option Str) (dflt : Option DefaultProduct) (env : Env) (text : Str) :
+    Res (List Action) :=
+  (parseD v pdir dflt text).bind fun chains => actions v env chains
 
 /-! ## `Table.getDeclareOptions`
 
